@@ -299,6 +299,32 @@ def run(ctx: Ctx):
             if not ok:
                 ctx.fail(cons, ci.loc(), f"the per-key windows of {key[0]}.{key[1]} are not "
                          f"deque(maxlen=...)")
+            # ... and the set of keys itself: one window per key is bounded only if keys are
+            # released (or come from a fixed set)
+            cons_k = f"{key[0]}.{key[1]}:keys-never-released"
+            ctx.inst(cons_k)
+            dels = []
+            for f in ci.all_funcs:
+                for n in A.walk_no_nested(f.node):
+                    if isinstance(n, ast.Delete) and any(
+                            isinstance(t, ast.Subscript) and isinstance(t.value, ast.Attribute)
+                            and t.value.attr == key[1] for t in n.targets):
+                        dels.append(f)
+                    if isinstance(n, ast.Call) and isinstance(n.func, ast.Attribute) \
+                            and n.func.attr in ("pop", "popitem", "clear") \
+                            and isinstance(n.func.value, ast.Attribute) and n.func.value.attr == key[1]:
+                        dels.append(f)
+            # frozen after reading the code: key sets that are finite by construction
+            FINITE_KEYS = {("PeerStats", "processed_req_time"):
+                           "keyed by Message.name - a command name of the dictionary or 'Unknown'"}
+            if creators and not dels and key not in FINITE_KEYS:
+                f0, n0 = creators[0]
+                kexpr = [t for t in n0.targets if isinstance(t, ast.Subscript)][0].slice
+                ctx.fail(cons_k, f0.loc(n0), f"{key[0]}.{key[1]} gets one window per `{ast.unparse(kexpr)}` "
+                         f"(created in {f0.qualname}) and no key is ever removed: the table grows by one "
+                         f"entry for every distinct value - for the retransmission windows every "
+                         f"distinct Origin-Host, including those of rejected unknown peers and of the "
+                         f"clients behind a relay - and survives connection close and stop()")
         elif tkind == "pruned":
             ctx.inst(cons)
             f = ci.methods.get("add_count")
